@@ -33,6 +33,7 @@ func main() {
 	expect := flag.String("expect", "", "self-test: obligation-key globs (|| separated) one of which must newly fail; empty = any new failure")
 	selfOut := flag.String("selftest-out", "", "self-test: append the result of this variant (JSON line) to this file")
 	selfIn := flag.String("selftest-in", "", "thorough: merge self-test results from this file into the evidence")
+	genNames := flag.Bool("gen-names", false, "maintenance: write the frozen parameter/local name table (names.json) from the current tree")
 	flag.Parse()
 
 	seed := 0
@@ -94,6 +95,9 @@ func main() {
 			cfg.Overlay = map[string][]byte{filepath.Join(*repo, v.File): []byte(text)}
 		}
 		p, err := ir.Load(cfg)
+		if err == nil {
+			_, err = p.ApplyFrozenNames(filepath.Join(*verif, "names.json"))
+		}
 		if err != nil {
 			res.Status = "nocompile"
 			res.Note = short(err.Error(), 300)
@@ -146,6 +150,19 @@ func main() {
 		fmt.Fprintln(os.Stderr, "lkcheck: load failed:", err)
 		os.Exit(2)
 	}
+	if *genNames {
+		if err := p.WriteNames(filepath.Join(*verif, "names.json")); err != nil {
+			fmt.Fprintln(os.Stderr, "lkcheck:", err)
+			os.Exit(2)
+		}
+		fmt.Println("names.json written")
+		return
+	}
+	renamed, err := p.ApplyFrozenNames(filepath.Join(*verif, "names.json"))
+	if err != nil {
+		fmt.Fprintln(os.Stderr, "lkcheck: names.json:", err)
+		os.Exit(2)
+	}
 	if len(p.Pkgs) < 85 {
 		fmt.Fprintf(os.Stderr, "lkcheck: only %d module packages loaded (floor 85)\n", len(p.Pkgs))
 		os.Exit(2)
@@ -161,6 +178,7 @@ func main() {
 	}
 	r := report.New(*prop, *tier, seed)
 	r.Note("loaded %d module packages (%d with dependencies), %d functions with bodies, 0 type errors", len(p.Pkgs), p.NumAll, len(p.Funcs))
+	r.Note("rename-robust rendering: %d functions currently use receiver/parameter/local names that differ from the frozen table (names.json); their frozen names are used in patterns", renamed)
 	code := func() (code int) {
 		defer func() {
 			if e := recover(); e != nil {
